@@ -852,6 +852,16 @@ class Vorbis(OggFmt):
             return rng.randrange(0, 2 ** 32)
         return OggFmt.rand_field(self, rng, f)
 
+    def params_lattice(self, rng):
+        for p in OggFmt.params_lattice(self, rng):
+            yield p
+        # the bitrate rule compares the three fields with each other: all orderings around equal values
+        vals = [-1, 0, 1, 2, 127999, 128000, 128001]
+        for mx in vals:
+            for nm in vals:
+                for mn in vals:
+                    yield [2, 44100, mx, nm, mn, 0xb8, 441000]
+
     def impl(self, file):
         i = M().oggvorbis.OggVorbis(io.BytesIO(file)).info
         return {"channels": i.channels, "sample_rate": i.sample_rate, "bitrate": i.bitrate, "length": i.length}
